@@ -44,8 +44,8 @@ def _key(name):
 def is_helper(body):
     if body.kind == "Closure":
         return False
-    if body.j.get("impl_trait"):
-        return False
+    if body.j.get("impl_trait") and not str(body.j.get("impl_trait")).startswith(body.prog.facts.get("crate", "txtpp") + "::"):
+        return False        # impls of foreign traits are reached through the trait's users (fmt, From, Drop ..): never spliced
     k = known_functions()
     if body.name in k or _key(body.name) in k:
         return False
@@ -149,6 +149,8 @@ COMBINATORS = {
     "std::result::Result::<T, E>::unwrap_or_else": "r_unwrap_or_else", "std::result::Result::<T, E>::map_or": "r_map_or",
     "std::result::Result::<T, E>::map_or_else": "r_map_or_else", "std::result::Result::<T, E>::is_ok_and": "r_is_ok_and",
     "std::result::Result::<T, E>::is_err_and": "r_is_err_and",
+    "std::result::Result::<T, E>::inspect_err": "r_inspect_err", "std::result::Result::<T, E>::inspect": "r_inspect",
+    "std::option::Option::<T>::inspect": "o_inspect",
     "std::bool::<impl bool>::then": "b_then",
     "std::iter::Iterator::for_each": "i_for_each", "std::iter::Iterator::try_for_each": "i_try_for_each",
     "std::iter::Iterator::any": "i_any", "std::iter::Iterator::all": "i_all", "std::iter::Iterator::find": "i_find",
@@ -371,6 +373,15 @@ class Splicer:
                 arm_call(b0, f, fop, [x0]); arm_set(b1, use(cbool("false")))
             elif tpl == "r_is_err_and":
                 arm_set(b0, use(cbool("false"))); arm_call(b1, f, fop, [x1])
+            elif tpl in ("r_inspect_err", "r_inspect", "o_inspect"):
+                # the value passes through unchanged; the closure looks at one payload by reference
+                look, skip = (b1, b0) if tpl != "r_inspect" else (b0, b1)
+                arm_set(skip, use(args[0]))
+                r = self.new_local({"ty": "&_"}); u = self.new_local({"ty": "()"})
+                self.assign(look, L(r), {"k": "ref", "mut": False, "pl": pay(s, adt, 0 if tpl == "r_inspect" else 1)}, span)
+                b2 = nb()
+                self.invoke(look, f, fop, [mv(L(r))], L(u), b2, span)
+                arm_set(b2, use(args[0]))
             else:
                 return False
         elif tpl == "b_then":
@@ -514,6 +525,128 @@ def inline_body(prog, body, helpers):
     return nj, S.consumed
 
 
+def _map_places(blocks, f):
+    """rewrite every place of the body in place with f(place) -> place"""
+    def op(o):
+        if o is not None and o.get("k") in ("copy", "move"):
+            o["pl"] = f(o["pl"])
+    for blk in blocks:
+        for st in blk["stmts"]:
+            if "lhs" in st:
+                st["lhs"] = f(st["lhs"])
+            if st["k"] == "assign":
+                rv = st["rv"]
+                for key in ("op", "a", "b"):
+                    if isinstance(rv.get(key), dict):
+                        op(rv[key])
+                if "pl" in rv:
+                    rv["pl"] = f(rv["pl"])
+                for o in rv.get("ops", []):
+                    op(o)
+        t = blk["term"]
+        k = t["k"]
+        if k == "switch":
+            op(t["discr"])
+        elif k == "call":
+            for a in t["args"]:
+                op(a)
+            t["dest"] = f(t["dest"])
+            if "callee_op" in t:
+                op(t["callee_op"])
+        elif k == "drop":
+            t["pl"] = f(t["pl"])
+        elif k == "assert":
+            op(t["cond"])
+            for o in t.get("mops", []):
+                op(o)
+
+
+def resolve_borrows(j):
+    """`let r = &mut x; .. *r ..`  ==>  `.. x ..` for references that are bound exactly once to a place of this body (a `&mut bool`
+    handed to a spliced helper, a reborrow chain, a field of `*self`).  Purely a renaming of places: `(*r)` and `x` are the same
+    memory for as long as r is live.  Returns a rewritten copy of the body json, or None when nothing applies."""
+    blocks = j["blocks"]
+    nargs = j.get("arg_count", 0)
+    ndefs = {}
+    single = {}
+    for bi, blk in enumerate(blocks):
+        for st in blk["stmts"]:
+            if "lhs" in st:
+                l = st["lhs"]["l"]
+                if st["lhs"]["p"] and st["lhs"]["p"][0]["k"] == "deref":
+                    continue        # a store through the reference does not rebind it
+                ndefs[l] = ndefs.get(l, 0) + 1
+                if st["k"] == "assign" and not st["lhs"]["p"]:
+                    single[l] = st["rv"]
+        t = blk["term"]
+        if t["k"] == "call":
+            l = t["dest"]["l"]
+            ndefs[l] = ndefs.get(l, 0) + 1
+            if t["dest"]["p"] and t["dest"]["p"][0]["k"] == "deref":
+                ndefs[l] -= 1
+    stable = lambda l: l <= nargs or ndefs.get(l, 0) <= 1
+    alias = {}
+
+    def target(l, depth=0):
+        if l in alias:
+            return alias[l]
+        if depth > 12 or l <= nargs or ndefs.get(l, 0) != 1 or l not in single:
+            return None
+        rv = single[l]
+        res = None
+        if rv["k"] == "ref":
+            q = rv["pl"]
+            if q["p"] and q["p"][0]["k"] == "deref":
+                base = target(q["l"], depth + 1)
+                if base is not None:
+                    q = {"l": base["l"], "p": base["p"] + q["p"][1:]}
+            if not any(e["k"] in ("index", "constindex", "subslice") for e in q["p"]) and \
+                    (stable(q["l"]) or not any(e["k"] == "deref" for e in q["p"])):
+                res = q
+        elif rv["k"] == "use" and rv["op"].get("k") in ("copy", "move") and not rv["op"]["pl"]["p"]:
+            res = target(rv["op"]["pl"]["l"], depth + 1)
+        elif rv["k"] == "use" and rv["op"].get("k") in ("copy", "move") and len(rv["op"]["pl"]["p"]) == 1 and \
+                rv["op"]["pl"]["p"][0]["k"] == "field" and rv["op"]["pl"]["p"][0].get("owner") == "(tuple)":
+            # `_r = copy _t.0` with `_t = (move _a, ..)` built once: the reference that was put into the scrutinee tuple
+            tl = rv["op"]["pl"]["l"]
+            trv = single.get(tl) if tl > nargs and ndefs.get(tl, 0) == 1 else None
+            i = rv["op"]["pl"]["p"][0]["i"]
+            if trv is not None and trv["k"] == "aggregate" and trv["agg"]["k"] == "tuple" and i < len(trv["ops"]):
+                o = trv["ops"][i]
+                if o.get("k") in ("copy", "move") and not o["pl"]["p"]:
+                    res = target(o["pl"]["l"], depth + 1)
+        alias[l] = res
+        return res
+
+    hit = [False]
+
+    def f(pl):
+        if pl["p"] and pl["p"][0]["k"] == "deref":
+            tg = target(pl["l"])
+            if tg is not None and tg["l"] != pl["l"]:
+                hit[0] = True
+                return f({"l": tg["l"], "p": list(tg["p"]) + pl["p"][1:]})
+        elif len(pl["p"]) >= 2 and pl["p"][0]["k"] == "field" and pl["p"][0].get("owner") == "(tuple)" and pl["p"][1]["k"] == "deref":
+            # `match (&a, b) { (X, Y) => .. }`: the scrutinee tuple of references is built once; `*(t.0)` is `a`
+            l = pl["l"]
+            rv = single.get(l) if l > nargs and ndefs.get(l, 0) == 1 else None
+            if rv is not None and rv["k"] == "aggregate" and rv["agg"]["k"] == "tuple" and pl["p"][0]["i"] < len(rv["ops"]):
+                o = rv["ops"][pl["p"][0]["i"]]
+                if o.get("k") in ("copy", "move") and not o["pl"]["p"]:
+                    tg = target(o["pl"]["l"])
+                    if tg is not None:
+                        hit[0] = True
+                        return f({"l": tg["l"], "p": list(tg["p"]) + pl["p"][2:]})
+        return pl
+    nb = copy.deepcopy(blocks)
+    _map_places(nb, f)
+    if not hit[0]:
+        return None
+    nj = dict(j)
+    nj["blocks"] = nb
+    return nj
+
+
 def inline_program(prog):
     helpers = {n for n, b in prog.bodies.items() if is_helper(b)}
     new_bodies = []
@@ -521,6 +654,9 @@ def inline_program(prog):
     for n, b in prog.bodies.items():
         nj, cons = inline_body(prog, b, helpers)
         consumed |= cons
+        rj = resolve_borrows(nj if nj is not None else b.j)
+        if rj is not None:
+            nj = rj
         new_bodies.append(nj if nj is not None else b.j)
     if not helpers and not consumed and all(nj is b.j for nj, b in zip(new_bodies, prog.bodies.values())):
         return prog, []
